@@ -30,6 +30,7 @@ type collectProbe struct {
 	dest    ro.Observer[int]
 	subCtx  context.Context
 	played  chan struct{} // closed when the whole script has been emitted
+	gate    chan struct{} // async: when non-nil, the player waits for it
 	once    sync.Once
 	subs    int
 	tdowns  int
@@ -42,6 +43,9 @@ func (p *collectProbe) Observable() ro.Observable[int] {
 		p.dest, p.subCtx = dest, ctx
 		p.mu.Unlock()
 		play := func() {
+			if p.gate != nil {
+				<-p.gate
+			}
 			for _, t := range p.script {
 				emit(dest, ctx, t)
 			}
@@ -94,6 +98,9 @@ func runCollectCase(c *Case) string {
 }
 
 func runCollectCase1(c *Case) string {
+	if c.get("mode", "sync") == "wait" {
+		return runWaitCase(c)
+	}
 	script, err := parseScript(c.get("src", "-"))
 	if err != nil {
 		return "res " + c.id + " bad-script"
@@ -153,6 +160,141 @@ func runCollectCase1(c *Case) string {
 	}
 }
 
+// mode=wait — the same question put to Subscription.Wait directly, where the terminal callback can be
+// made slow: an observer that gathers what Collect gathers, whose terminal callback BLOCKS until the
+// harness releases it; a second goroutine calls sub.Wait(). While the terminal callback is in progress
+// Wait must not have returned (`early=0`; a correct Wait never returns there, so the grace period cannot
+// produce a false alarm); after the release it must return (`ret=1`). Without a terminal in the
+// delivered trace Wait must still be blocked after the source has played everything (`ret=0`).
+type waitObs struct {
+	mu         sync.Mutex
+	vals       []string
+	err        string
+	lctx       string
+	inTerminal chan struct{}
+	release    chan struct{}
+}
+
+func waitObserver[T any](w *waitObs) ro.Observer[T] {
+	terminal := func(ctx context.Context, e string) {
+		w.mu.Lock()
+		w.err, w.lctx = e, renderCtx(ctx)
+		w.mu.Unlock()
+		close(w.inTerminal)
+		<-w.release
+	}
+	return ro.NewObserverWithContext(
+		func(ctx context.Context, v T) {
+			w.mu.Lock()
+			w.vals = append(w.vals, renderVal(v))
+			w.mu.Unlock()
+		},
+		func(ctx context.Context, err error) { terminal(ctx, renderErr(err)) },
+		func(ctx context.Context) { terminal(ctx, "nil") },
+	)
+}
+
+func waitSubscribeAny(a any, ctx context.Context, w *waitObs) (ro.Subscription, bool) {
+	switch o := a.(type) {
+	case ro.Observable[int]:
+		return o.SubscribeWithContext(ctx, waitObserver[int](w)), true
+	case ro.Observable[[]int]:
+		return o.SubscribeWithContext(ctx, waitObserver[[]int](w)), true
+	case ro.Observable[bool]:
+		return o.SubscribeWithContext(ctx, waitObserver[bool](w)), true
+	case ro.Observable[int64]:
+		return o.SubscribeWithContext(ctx, waitObserver[int64](w)), true
+	case ro.Observable[map[int]int]:
+		return o.SubscribeWithContext(ctx, waitObserver[map[int]int](w)), true
+	case ro.Observable[ro.Notification[int]]:
+		return o.SubscribeWithContext(ctx, waitObserver[ro.Notification[int]](w)), true
+	}
+	return nil, false
+}
+
+func runWaitCase(c *Case) string {
+	script, err := parseScript(c.get("src", "-"))
+	if err != nil {
+		return "res " + c.id + " bad-script"
+	}
+	subCtx := ctxFromMarks(parseInts(strings.ReplaceAll(c.get("sub", "-"), ".", ",")))
+	setRecorder(nil)
+	// the probe plays its script from a goroutine, once the harness says so (after Wait was called)
+	start := make(chan struct{})
+	probe := &collectProbe{script: script, async: true, played: make(chan struct{}), gate: start}
+	obs, ok := buildCaseObs(c, probe.Observable())
+	if !ok {
+		return "res " + c.id + " unsupported"
+	}
+	w := &waitObs{inTerminal: make(chan struct{}), release: make(chan struct{})}
+	var sub ro.Subscription
+	subscribed := make(chan bool, 1)
+	go func() { // the subscribe function itself may deliver a terminal (Take(0)) and block in it
+		var ok bool
+		sub, ok = waitSubscribeAny(obs, subCtx, w)
+		subscribed <- ok
+	}()
+	waited := make(chan struct{})
+	startWait := func() {
+		go func() {
+			sub.Wait()
+			close(waited)
+		}()
+	}
+	haveSub := false
+	select {
+	case ok := <-subscribed:
+		if !ok {
+			return "res " + c.id + " unsupported"
+		}
+		haveSub = true
+		startWait()
+		close(start)
+	case <-w.inTerminal:
+		close(start)
+	}
+	early := 0
+	line := ""
+	select {
+	case <-w.inTerminal:
+		if haveSub {
+			select {
+			case <-waited:
+				early = 1
+			case <-time.After(1500 * time.Microsecond):
+			}
+		}
+		close(w.release)
+		if !haveSub {
+			<-subscribed
+			startWait()
+		}
+		select {
+		case <-waited:
+			w.mu.Lock()
+			line = fmt.Sprintf("ret=1 vals=[%s] err=%s lctx=%s", strings.Join(w.vals, ";"), w.err, w.lctx)
+			w.mu.Unlock()
+		case <-time.After(2 * time.Second):
+			line = "ret=0 vals=- err=- lctx=- stuck=wait-hangs"
+		}
+	case <-probe.played:
+		// everything played, no terminal reached the observer (it would have blocked the player)
+		select {
+		case <-waited:
+			early = 1
+		case <-time.After(collectGrace):
+		}
+		line = "ret=0 vals=- err=- lctx=-"
+		close(w.release)
+		sub.Unsubscribe()
+		<-waited
+	case <-time.After(2 * time.Second):
+		line = "ret=0 vals=- err=- lctx=- stuck=source"
+		close(w.release)
+	}
+	return fmt.Sprintf("res %s %s early=%d", c.id, line, early)
+}
+
 func genCollect(tier string, seed int64, only string) []*Case {
 	r := rand.New(rand.NewSource(seed*3571 + 9))
 	lists := [][]int{{}, {2}, {-1, 0}, {3, 2, 3}}
@@ -189,7 +331,7 @@ func genCollect(tier string, seed int64, only string) []*Case {
 						}
 						scripts = append(scripts, append(append([]Tok{}, scripts[len(scripts)-1]...), Tok{'N', 9, len(vals) + 2}))
 						for _, script := range scripts {
-							for _, mode := range []string{"sync", "async"} {
+							for _, mode := range []string{"sync", "async", "wait"} {
 								id++
 								cases = append(cases, newCase(id, "kind", "collect", "op", spec.name, "p", intsString(p), "var", variant, "cb", cb,
 									"mode", mode, "sub", "7", "src", scriptString(script)))
@@ -213,10 +355,7 @@ func genCollect(tier string, seed int64, only string) []*Case {
 			if len(script) == len(vals) && r.Intn(3) != 0 {
 				script = scripts[1+r.Intn(len(scripts)-1)]
 			}
-			mode := "sync"
-			if r.Intn(2) == 0 {
-				mode = "async"
-			}
+			mode := []string{"sync", "async", "wait"}[r.Intn(3)]
 			id++
 			cases = append(cases, newCase(id, "kind", "collect", "ops", strings.Join(stages, "|"), "mode", mode, "sub", "7", "src", scriptString(script)))
 		}
